@@ -20,4 +20,13 @@ Tol_S_mie_big        == -4000   \* x >= 50: default continued-fraction tolerance
 Tol_S_pyseries       == -5500   \* pure-Python series, documented ~1e-6
 Tol_mie_multisphere_default == -2000  \* default cluster-solver truncation qeps1=1e-5 (measured up to 3.9e-3 at x=23)
 Tol_mie_multisphere_tight   == -4000  \* with eps=1e-12, qeps1=1e-9, qeps2=1e-12 (measured <= 9.2e-6)
+Tol_cs_ext_is_sum    == -12000  \* ext - (sca + abs), relative (measured 0)
+Tol_cs_abs_nonneg    == -9000   \* negative part of abs / ext; abs/ext for real index, homogeneous (measured <= 1.9e-11 at x=460)
+Tol_cs_abs_layered   == -6000   \* same for layered spheres, x >= 0.08 (measured 1.5e-8 at x=0.09; precision degrades as x -> 0)
+Tol_cs_optical       == -6000   \* 4 pi/k^2 Re S(0) vs ext (measured <= 1.6e-8)
+Tol_cs_optical_big   == -4000   \* size parameter >= 50 (default continued-fraction tolerance)
+Tol_cs_integral      == -5000   \* angular integrals by Gauss-Legendre quadrature (measured <= 4e-8)
+Tol_cs_rayleigh      == -3500   \* Rayleigh formula at x ~ 1e-3: O(x^2) corrections
+Tol_cs_textbook      == -6000   \* four numbers vs independent series
+Tol_cs_multisphere   == -3500   \* one-sphere cluster vs Mie (measured <= 1.3e-6 .. default truncation)
 =============================================================================
